@@ -224,7 +224,7 @@ def gen_cases(rng, tables, tier):
 
 
 def reuse_cases(rng):
-    """a token that expires in two seconds is used while valid and the very same token bytes are presented again after its
+    """a token that expires in three seconds is used while valid and the very same token bytes are presented again after its
     expiry: the second request has to be refused whatever the first one left behind (the verifier keeps no memory of tokens
     it has accepted; disable_disconnect_on_expiry concerns open upstream connections, not the validity of a token)"""
     out = []
@@ -233,10 +233,10 @@ def reuse_cases(rng):
         case = {"id": "reuse-%d" % i, "wired": False}
         for port in ("proxy", "upstream", "admin"):
             case[port] = portcfg(mtv(c), cluster=True, registry=True)
-        t = tok(alg="HS256", key="hmacA", exp=2)
-        steps = [dict(step("admin", "/health", auth=hdr(copy.deepcopy(t))), label="reuse-after-expiry", reuse_ms=3600),
-                 dict(step("admin", "/status/cluster/nodes", xauth=hdr(copy.deepcopy(t))), label="reuse-after-expiry", reuse_ms=3600),
-                 dict(step("proxy", "/app", host="e.example.com", auth=hdr(copy.deepcopy(t))), label="reuse-after-expiry", reuse_ms=3600),
+        t = tok(alg="HS256", key="hmacA", exp=3)
+        steps = [dict(step("admin", "/health", auth=hdr(copy.deepcopy(t))), label="reuse-after-expiry", reuse_ms=4800),
+                 dict(step("admin", "/status/cluster/nodes", xauth=hdr(copy.deepcopy(t))), label="reuse-after-expiry", reuse_ms=4800),
+                 dict(step("proxy", "/app", host="e.example.com", auth=hdr(copy.deepcopy(t))), label="reuse-after-expiry", reuse_ms=4800),
                  dict(step("admin", "/metrics", auth=hdr(tok(alg="HS256", key="hmacA", exp=3600))), label="reuse-still-valid", reuse_ms=300)]
         case["steps"] = steps
         out.append(case)
